@@ -487,6 +487,20 @@ func (w *World) stableAt(fam string, unitFn *ssa.Function, r hidRec) *stableDecl
 	if d == nil {
 		return nil
 	}
+	if !r.useStable {
+		return nil
+	}
+	if len(r.useOnly) > 0 {
+		hit := false
+		for _, n := range r.useOnly {
+			if n == d.text || strings.HasSuffix(d.text, " "+n) || strings.HasSuffix(d.text, "."+n) {
+				hit = true
+			}
+		}
+		if !hit {
+			return nil
+		}
+	}
 	if !r.rooted {
 		return w.stableIn(fam, unitFn)
 	}
